@@ -42,3 +42,43 @@ Theorem C15_visit_set_spec : forall T bits idx,
   visit_set T bits idx = map (fun n => Some (Z.testbit bits n)) idx.
 Proof. exact visit_set_spec. Qed.
 Print Assumptions C15_visit_set_spec.
+
+(* ---- the same statements about the expression trees REGENERATED on every
+   run from clang's typed AST of /repo's current bitset_base<T>::operator()
+   (SrcExprs.v, harness/srcexprs.py), for all four widths ---- *)
+From Coq Require Import String.
+From Sbepp Require Import CExpr SrcExprs SrcExprsProofs.
+Import ListNotations.
+Local Open Scope string_scope.
+
+Theorem C15_source_bit_independent : forall T bits n b,
+  is_set_type T = true -> 0 <= n < CInt.bits T -> in_range T bits = true ->
+  exists bits',
+    effs_eval [("bits", bits); ("n", n); ("b", b2z b)] (src_set_bit T) = Some [bits'] /\
+    in_range T bits' = true /\
+    forall m, 0 <= m < CInt.bits T ->
+      effs_eval [("bits", bits'); ("n", m)] (src_get_bit T)
+      = Some [zb (if (m =? n)%Z then b else Z.testbit bits m)].
+Proof. exact src_bitset_bit_independent. Qed.
+Print Assumptions C15_source_bit_independent.
+
+Theorem C15_source_get_bit_is_testbit : forall T bits n,
+  is_set_type T = true -> 0 <= n < CInt.bits T -> in_range T bits = true ->
+  effs_eval [("bits", bits); ("n", n)] (src_get_bit T) = Some [zb (Z.testbit bits n)].
+Proof. exact src_get_bit_is_testbit. Qed.
+Print Assumptions C15_source_get_bit_is_testbit.
+
+(* the regenerated setter/getter ARE the hand-written model (so every theorem
+   above applies to them), and they store into / return what the model says *)
+Theorem C15_source_is_the_model : forall T bits n b,
+  is_set_type T = true -> in_range T bits = true -> in_range U8 n = true ->
+  effs_eval [("bits", bits); ("n", n)] (src_get_bit T) = option_map (fun b => [zb b]) (get_bit T bits n) /\
+  effs_eval [("bits", bits); ("n", n); ("b", b2z b)] (src_set_bit T) = option_map (fun v => [v]) (set_bit T bits n b) /\
+  map eff_target (src_get_bit T) = ["return"] /\ map eff_target (src_set_bit T) = ["bits="].
+Proof.
+  intros T bits n b HT Hb Hn. split; [|split].
+  - exact (src_get_bit_is_model T bits n HT Hb Hn).
+  - exact (src_set_bit_is_model T bits n b HT Hb Hn).
+  - exact (src_bit_targets T HT).
+Qed.
+Print Assumptions C15_source_is_the_model.
